@@ -204,6 +204,8 @@ impl Property for C05 {
         let long = rng.chance(1, 12);
         let input = gen_input(rng, &cfg, long);
         let plans = gen_plans(rng, &input, &cfg, long);
+        let mut opts = opts;
+        add_neutral_xargs_opts(rng, &mut opts);
         Sc {
             base: XargsScenario {
                 opts,
